@@ -27,6 +27,8 @@ EXPLANATION = (
     "iteration-count formula."
 )
 NOT_DECIDED = "every clause about the output distribution; the iteration-count formula; the oracle's own correctness"
+# decode_output goes through the nested decoder of the types package (the property's last sentence)
+LINT_EXTRA = ("types.interpret_as_qtype.", "types.format_outcome.")
 MIN_OBLIGATIONS = 16
 
 G = "algorithms.grover.Grover"
